@@ -53,6 +53,19 @@ STD_MACROS = [
     "PTRDIFF_MAX", "WCHAR_MAX", "CHAR_BIT", "offsetof", "isnan", "signbit",
 ]  # fmt: skip
 
+# Keywords and alternative tokens, written down here from the language standards (C11 6.4.1, C++20 [lex.key]) and NOT
+# taken from nunavut's properties.yaml: an entry that is missing from (or gets dropped out of) the reserved lists of
+# the code under test must still be part of the alphabet.
+C_KEYWORDS = """auto break case char const continue default do double else enum extern float for goto if inline int long
+register restrict return short signed sizeof static struct switch typedef union unsigned void volatile while _Alignas
+_Alignof _Atomic _Bool _Complex _Generic _Imaginary _Noreturn _Static_assert _Thread_local""".split()
+CXX_KEYWORDS = """alignas alignof and and_eq asm auto bitand bitor bool break case catch char char8_t char16_t char32_t
+class compl concept const consteval constexpr constinit const_cast continue co_await co_return co_yield decltype default
+delete do double dynamic_cast else enum explicit export extern false float for friend goto if inline int long mutable
+namespace new noexcept not not_eq nullptr operator or or_eq private protected public register reinterpret_cast requires
+return short signed sizeof static static_assert static_cast struct switch template this thread_local throw true try
+typedef typeid typename union unsigned using virtual void volatile wchar_t while xor xor_eq""".split()
+
 # Identifiers the generated code itself uses around user-named entities (attribute position only).
 GENERATOR_INTERNAL = [
     "obj", "out_obj", "in_obj", "buffer", "out_buffer", "in_buffer", "inout_buffer_size_bytes", "offset_bits",
@@ -124,6 +137,10 @@ def raw_alphabet() -> typing.List[NameEntry]:
         if o not in origin[str(n)]:
             origin[str(n)].append(o)
 
+    for n in C_KEYWORDS:
+        add(n, "c_keyword")
+    for n in CXX_KEYWORDS:
+        add(n, "cxx_keyword")
     for lang in ("c", "cpp", "py"):
         for n in props.get(f"nunavut.lang.{lang}", {}).get("reserved_identifiers") or []:
             add(n, f"{lang}_reserved")
@@ -151,12 +168,13 @@ def raw_alphabet() -> typing.List[NameEntry]:
 
 def primary_origin(e: NameEntry) -> str:
     """The class of names `e` stands for (the *feature* of the name, used in violation signatures):
-    std_macro | generator_internal:<name> | pattern:<lang>:<id type>:<regex> | <lang>_reserved | py_keyword | ..."""
+    std_macro | generator_internal:<name> | pattern:<lang>:<id type>:<regex> | c_keyword | cxx_keyword | c_reserved
+    (in nunavut's list without being a keyword) | py_keyword | py_soft_keyword | py_builtin"""
     if "std_macro" in e.origins:
         return "std_macro"
     if "generator_internal" in e.origins:
         return f"generator_internal:{e.name}"
-    if "pattern_witness" in e.origins and not any(o.endswith("_reserved") or o == "py_keyword" for o in e.origins):
+    if "pattern_witness" in e.origins and not any(o.endswith(("_reserved", "_keyword")) for o in e.origins):
         for lang, ty, p in reserved_patterns():
             if re.compile(p).match(e.name):
                 return f"pattern:{lang}:{ty}:{p}"
@@ -761,9 +779,12 @@ def layer8() -> typing.List[Case]:
             # a reference type living next to `a` that depends on `b` (field, fixed array, variable array)
             r = (a[0], a[1], f"R{i}x{j}", "1.0")
             kind = "cross_root" if a[0] != b[0] else "same_root"
+            shape = "reserved_component" if "if" in (a[1] + "/" + b[1]).split("/") else "plain"
             members.append(
                 dict(
                     label=f"ref:{kind}:{'.'.join(full(a).split('.')[:-3]) or a[0]}->{full(b)}",
+                    feature=f"ref:{kind}:{shape}",
+                    name=f"{'.'.join(full(a).split('.')[:-3]) or a[0]}->{full(b)}",
                     origin="namespace_shape",
                     files={rel(r): f"{full(b)} a\n{full(b)}[2] b\n{full(b)}[<=2] c\n@sealed\n"},
                 )
